@@ -105,6 +105,9 @@ type State struct {
 	defers map[int][]deferRec
 	pathID string
 	dead   bool
+	// snapshots at monitor Lock / Unlock operations on this path (newest last)
+	lockSnaps   []*State
+	unlockSnaps []*State
 }
 
 type freshObj struct {
@@ -150,6 +153,8 @@ func (s *State) clone() *State {
 	n.pc = append([]*Term(nil), s.pc...)
 	n.fresh = append([]freshObj(nil), s.fresh...)
 	n.pathID = s.pathID
+	n.lockSnaps = append([]*State(nil), s.lockSnaps...)
+	n.unlockSnaps = append([]*State(nil), s.unlockSnaps...)
 	return n
 }
 
@@ -164,4 +169,12 @@ func (s *State) assume(t *Term) {
 		return
 	}
 	s.pc = append(s.pc, t)
+}
+
+// snapshot is a copy of the state for later evaluation of atLock()/atUnlock()
+// spec expressions; it carries no snapshots itself.
+func (s *State) snapshot() *State {
+	n := s.clone()
+	n.lockSnaps, n.unlockSnaps = nil, nil
+	return n
 }
